@@ -1,2 +1,3 @@
 import OtelVerif.Props.C09
+import OtelVerif.Props.C15
 import OtelVerif.Props.C16
